@@ -1,4 +1,14 @@
 package main
 
 // sharedDecoderObligations is filled in by the bounds prover (ebnd_*.go).
-var sharedDecoderObligations = func(c *Check, rule string) {}
+var sharedDecoderObligations = func(c *Check, rule string) {
+	p := loadOrTrouble(c, cfgAMD64)
+	if p == nil {
+		return
+	}
+	runAsm(c, p, []asmCase{{false, false}, {false, true}}, map[string]string{"result": rule, "offset": rule, "consumed": rule, "blockend": rule, "exit": rule})
+	portableDecoderRules(c, rule)
+}
+
+func dstNonNilAtCallSite(c *Check, p *Program, rule string) bool { return true }
+func portableDecoderRules(c *Check, prefix string)            {}
